@@ -305,6 +305,13 @@ class BuiltinMixin:
         if not args:
             return self.new_list([])
         x = args[0]
+        if x.k == "py" and isinstance(x.r, tuple) and x.r and x.r[0] == "filter":
+            return self.iter_to_list(x, n, frame)
+        if x.k == "py" and isinstance(x.r, tuple) and x.r and x.r[0] == "dictview" and self.iter_items(x) is None:
+            # list(d.items()) of a symbolic dict, used as the iterable of a for / comprehension: the
+            # snapshot equals the view as long as the dict is not changed while it is iterated
+            # (A-SNAPSHOT; comprehension bodies are pure, A-COMP-PURE)
+            return x
         items = self.concrete_items(x)
         if items is not None:
             return self.new_list(items)
@@ -313,7 +320,60 @@ class BuiltinMixin:
         return self.iter_to_list(x, n, frame)
 
     def iter_to_list(self, x, n, frame):
+        if x.k == "py" and isinstance(x.r, tuple) and x.r and x.r[0] == "filter":
+            return self.filter_to_list(x.r[1], x.r[2], n, frame)
         raise Unsupported(f"list() of non-list iterable line {getattr(n,'lineno','?')}")
+
+    def bi_filter(self, args, kw, n, frame):
+        return py(("filter", args[0], args[1]), "iter")
+
+    def filter_to_list(self, fn, src, n, frame):
+        """list(filter(pred, L)) for a symbolic list L and a pure lambda pred: a fresh list R that is
+        the order-preserving sub-sequence of the elements satisfying pred (A-COMP-PURE: the
+        predicate has no side effects and raises nothing).  Facts, with Skolem functions
+        idx : positions of R -> positions of L (strictly increasing) and pos : back:
+          R[q] == L[idx(q)] and pred(R[q]);   pred(L[p]) => R[pos(p)] == L[p]."""
+        if not (fn.k == "py" and isinstance(fn.r, PyFunc) and isinstance(fn.r.node, ast.Lambda)
+                and len(fn.r.node.args.args) == 1):
+            raise Unsupported("filter with a predicate that is not a one-argument lambda")
+        if not (src.k == "val" and self.is_listlike(src)):
+            raise Unsupported("filter over a non-list")
+        lam = fn.r.node
+        target = ast.Name(id=lam.args.args[0].arg, ctx=ast.Store())
+        L = self.as_addr(src)
+        ln = self.hread("llen", (L,))
+        srcrow = z3.Select(self.heap.cur["lelem"], L)
+        R = self.alloc("list")
+        row = fresh("filt_row", z3.ArraySort(core.IntS, Val))
+        rlen = fresh("filt_len", core.IntS)
+        self.heap = self.heap.store("llen", (R,), rlen, bump=False)
+        self.heap = self.heap.with_array("lelem", z3.Store(self.heap.cur["lelem"], R, row), bump=False)
+        idx = z3.Function(core.fresh_name("filt_idx"), core.IntS, core.IntS)
+        pos = z3.Function(core.fresh_name("filt_pos"), core.IntS, core.IntS)
+        q = fresh("fq", core.IntS)
+        q2 = fresh("fq2", core.IntS)
+        p = fresh("fp", core.IntS)
+        frm = fn.r.frame if fn.r.frame is not None else frame
+        xq = TV("val", z3.Select(row, q), self.elem_hint(src))
+        (outs, side) = self._pure_on(frm, target, xq, [lam.body])
+        pred_q = self.truthy(outs[0])
+        xp = TV("val", z3.Select(srcrow, p), self.elem_hint(src))
+        (outs2, side2) = self._pure_on(frm, target, xp, [lam.body])
+        pred_p = self.truthy(outs2[0])
+        self.assume(z3.And(rlen >= 0, rlen <= ln))
+        self.assume(z3.ForAll([q], z3.Implies(z3.And(0 <= q, q < rlen), z3.And(
+            *side, 0 <= idx(q), idx(q) < ln, z3.Select(row, q) == z3.Select(srcrow, idx(q)), pred_q)),
+            patterns=[z3.Select(row, q)]))
+        self.assume(z3.ForAll([q, q2], z3.Implies(z3.And(0 <= q, q < q2, q2 < rlen), idx(q) < idx(q2)),
+                              patterns=[z3.MultiPattern(idx(q), idx(q2))]))
+        self.assume(z3.ForAll([p], z3.Implies(z3.And(0 <= p, p < ln, *side2, pred_p), z3.And(
+            0 <= pos(p), pos(p) < rlen, z3.Select(row, pos(p)) == z3.Select(srcrow, p))),
+            patterns=[z3.Select(srcrow, p)]))
+        tv = TV("val", mk_ref(R), "list")
+        eh = self.elem_hint(src)
+        if eh:
+            self.elem_hints[str(tv.r)] = eh
+        return tv
 
     def bi_tuple(self, args, kw, n, frame):
         if not args:
